@@ -23,15 +23,16 @@ res["feature_tests_with_change"] = t2.stdout.strip().splitlines()
 os.makedirs(os.path.join(WT, "tests"), exist_ok=True)
 shutil.copy(demo, os.path.join(WT, "tests", "demo_seed.rs"))
 prof = "--release" if "release" in open(os.path.join(src, "meta.json")).read() else ""
-d1 = sh("cd %s && cargo test --offline %s --features backend-mmap,backend-bitmap --test demo_seed 2>&1 | grep -E '^test result|error' | head -3" % (WT, prof))
+d1 = sh("cd %s && cargo test --offline %s --features backend-mmap,backend-bitmap --test demo_seed -- --test-threads 1 2>&1 | grep -E '^test result|error' | head -3" % (WT, prof))
 res["demo_with_change"] = d1.stdout.strip().splitlines()
 sh("git -C %s apply -R %s" % (WT, patch))
-d2 = sh("cd %s && cargo test --offline %s --features backend-mmap,backend-bitmap --test demo_seed 2>&1 | grep -E '^test result|error' | head -3" % (WT, prof))
+d2 = sh("cd %s && cargo test --offline %s --features backend-mmap,backend-bitmap --test demo_seed -- --test-threads 1 2>&1 | grep -E '^test result|error' | head -3" % (WT, prof))
 res["demo_without_change"] = d2.stdout.strip().splitlines()
 os.remove(os.path.join(WT, "tests", "demo_seed.rs"))
 sh("git -C %s checkout -- . && git -C %s clean -fdq -e target" % (WT, WT))
-ok = (any("ok. 81 passed" in l for l in res["baseline_with_change"]) and any("FAILED" in l for l in res["demo_with_change"])
-      and res["demo_without_change"] and all("ok." in l for l in res["demo_without_change"]))
+tr = lambda k: [l for l in res[k] if l.startswith("test result")]
+ok = (any("ok. 81 passed" in l for l in res["baseline_with_change"]) and any("FAILED" in l for l in tr("demo_with_change"))
+      and tr("demo_without_change") and all("test result: ok." in l for l in tr("demo_without_change")))
 res["confirmed"] = ok
 print(json.dumps(res, indent=1))
 dst = os.path.join("/verif/seeded", sid)
